@@ -401,6 +401,7 @@ func specC06() *propertySpec {
 			{"C06-R11", "the-saved-case-replays-as-it-was-judged: what is written to the fail file is the pruned recording; the next run draws the same values and fails the same way only if pruning is replay-neutral (shared with C04-R4.4/R4.5/R4.6/R4.7/R4.8/R5, C03-R2)", rulePruneBundle},
 			{"C06-R12", "the-next-run-builds-the-same-generators: the replay in the next run draws from generators constructed anew in that process; their tables are the same only if construction is deterministic (no map iteration, no nondeterminism source in the constructors) (shared with C07-R8)", ruleConstructionCensus},
 			{"C06-R13", "the-save-can-succeed-wherever-testdata-lives: the temporary file is created in the directory of the final name, so the publishing rename never crosses a file system (shared with C16-R4) — staged in os.TempDir it fails with EXDEV on every machine whose temp directory is another file system, the error is only logged, and no fail file exists for the next run", ruleC16R4},
+			{"C06-R14", "closed-set-of-ignore-reasons: checkFailFile drops a fail file only because it did not load, has another version, or its first run no longer fails", ruleIgnoreReasons},
 			{"C06-R6", "saved-is-reported: captureTestOutput/saveFailFile/final replay use doCheck's buffer (#5) and seed (#3); saved iff failfile == \"\" && !nofailfile; target failFileName(tb.Name())", func(r *Run) { ruleC01R1(r); ruleC06R6(r) }},
 		},
 	}
@@ -1382,6 +1383,32 @@ func ruleC17R1(r *Run) {
 	ni := 0
 	for _, b := range p.body(fn) {
 		for _, in := range b.Instrs {
+			{
+				// range-generated indices are in range by construction; the result of strings.Index & co. is -1 when
+				// nothing was found: used as an index or as the upper bound of a slice it needs a guard
+				var bound ssa.Value
+				switch x := in.(type) {
+				case *ssa.Slice:
+					bound = x.High
+				case *ssa.IndexAddr:
+					bound = x.Index
+				case *ssa.Index:
+					bound = x.Index
+				case *ssa.Lookup:
+					bound = x.Index
+				}
+				if bound != nil {
+					if c, isCall := p.resolve(bound).(*ssa.Call); isCall {
+						k := p.calleeKey(c.Common())
+						if strings.HasPrefix(k, "strings.Index") || strings.HasPrefix(k, "strings.LastIndex") || strings.HasPrefix(k, "bytes.Index") || strings.HasPrefix(k, "bytes.LastIndex") {
+							ex := p.expr(c)
+							facts := p.facts(in)
+							okG := holds(facts, ex, ">=", "0") || holds(facts, ex, ">", "-1") || holds(facts, ex, "!=", "-1") || holds(facts, ex, ">", "0")
+							r.Check("loadFailFile#search-result."+k, in.Pos(), okG, "the position found by "+k+" is used only where it is known to be >= 0", "the result of "+k+" is used as an index / upper slice bound in loadFailFile without a check that something was found (-1): a file without the separator panics instead of being ignored")
+						}
+					}
+				}
+			}
 			var base ssa.Value
 			var k int64
 			var isC, isStr bool
@@ -1420,7 +1447,8 @@ func ruleC17R1(r *Run) {
 				continue
 			}
 			if !isC {
-				continue // range-generated indices are in range by construction
+				// range-generated indices are in range by construction
+				continue
 			}
 			ni++
 			ln := "builtin:len(" + p.expr(base) + ")"
@@ -2009,4 +2037,72 @@ func mergeLits(parts []strPart) []strPart {
 		out = append(out, q)
 	}
 	return out
+}
+
+// ruleIgnoreReasons (C06-R14): checkFailFile drops a fail file — returns nothing to report — only for the reviewed
+// reasons: it did not load, it was written by another rapid version, or its first run no longer fails (passes or is
+// invalid data). Any other ignore path (an empty bitstream, a size limit, a name filter …) makes a failure that was
+// persisted correctly invisible to the next run.
+func ruleIgnoreReasons(r *Run) {
+	p := r.P
+	fn := r.MustFn("checkFailFile")
+	if fn == nil {
+		return
+	}
+	lf := p.callsTo(fn, "loadFailFile")
+	cos := p.callsTo(fn, "checkOnce")
+	if len(cos) == 0 {
+		// the replay wrapped in a local function called twice: any call in checkFailFile itself that yields a *testError
+		for _, cs := range p.calls(fn) {
+			if cs.Instr.Parent() == fn && cs.Value() != nil && isPtrToNamed(cs.Value().Type(), "testError") {
+				cos = append(cos, cs)
+			}
+		}
+	}
+	if len(lf) != 1 || len(cos) == 0 {
+		r.Undecided("checkFailFile#ignore-reason", fn.Pos(), "expected one loadFailFile call and a checkOnce call in checkFailFile")
+		return
+	}
+	var first *callSite
+	for _, c := range cos {
+		if first == nil || dominates(c.Instr, first.Instr) {
+			first = c
+		}
+	}
+	loadErr := p.expr(extractOr(lf[0].Value(), 3))
+	version := p.expr(extractOr(lf[0].Value(), 0))
+	e1 := first.Value()
+	n := 0
+	for _, ret := range returnsOf(fn) {
+		if !(isNilConst(p.resolve(p.res(ret, 0))) && isNilConst(p.resolve(p.res(ret, 1))) && isNilConst(p.resolve(p.res(ret, 2)))) {
+			continue
+		}
+		n++
+		sets := p.pathConds(fn, ret.Block(), func(rl rel) bool { return true })
+		ok := len(sets) > 0
+		why := ""
+		for _, set := range sets {
+			reason := false
+			for _, lit := range set {
+				rl := parseRel(lit)
+				switch {
+				case rl.X == loadErr && rl.Op == "!=" && rl.Y == "nil":
+					reason = true
+				case rl.X == version && rl.Op == "!=":
+					reason = true
+				case rl.X == p.expr(e1) && rl.Op == "==" && rl.Y == "nil":
+					reason = true
+				case strings.HasPrefix(rl.X, "(*testError).isInvalidData(") && rl.Op == "==" && rl.Y == "true":
+					reason = true
+				}
+			}
+			if !reason {
+				ok = false
+				why = "{" + strings.Join(set, "; ") + "}"
+			}
+		}
+		r.Check("checkFailFile#ignore-reason", ret.Pos(), ok, "a fail file is dropped only because it did not load, has another version, or its first run no longer fails",
+			"checkFailFile drops a fail file on a path that has none of the reviewed reasons (load error, other version, first run passes or is invalid) "+why+": a correctly persisted failure is not replayed by the next run")
+	}
+	r.Floor("ignore returns of checkFailFile", n, 2)
 }
